@@ -548,4 +548,69 @@ example : (run [] [.make [10, 20] 0 none .none none none none, .deleteBottom 0 1
 example : (run [] [.make [10] 0 none .none none none none, .add (.sp 0) (.substrate 7), .delete 1 0])[0]?
     = some ⟨[⟨10, 0⟩], [.flat], none, none⟩ := by decide
 
+/-! ### derived depth views: functions of the layers the medium holds now -/
+
+theorem foldl_eq_getLast_scanl (l : List Int) (a : Int) : (l.scanl (· + ·) a).getLast? = some (l.foldl (· + ·) a) := by
+  induction l generalizing a with
+  | nil => simp
+  | cons x xs ih =>
+    rw [List.scanl_cons, List.foldl_cons]
+    have := ih (a + x)
+    cases h : List.scanl (· + ·) (a + x) xs with
+    | nil => rw [h] at this; simp at this
+    | cons y ys => rw [h] at this; simpa [List.getLast?_cons_cons] using this
+
+/-- one interface depth more than layers -/
+theorem z_length (s : SP) : s.z.length = s.layers.length + 1 := by
+  simp [SP.z, List.length_scanl]
+
+theorem bottomDepths_length (s : SP) : s.bottomDepths.length = s.layers.length := by
+  simp [SP.bottomDepths, z_length]
+
+theorem topDepths_length (s : SP) : s.topDepths.length = s.layers.length := by
+  simp [SP.topDepths, z_length]
+
+/-- the deepest interface is at the total thickness of the layers the medium holds now -/
+theorem z_last (s : SP) : s.z.getLast? = some s.thickness := by
+  simp only [SP.z, SP.thickness]
+  exact foldl_eq_getLast_scanl _ 0
+
+/-- the first interface is the surface -/
+theorem z_head (s : SP) : s.z.head? = some 0 := by
+  simp only [SP.z]
+  cases (s.layers.map (·.thickness)) <;> simp [List.scanl]
+
+
+theorem scanl_lower (l : List Int) (a : Int) (h : ∀ x ∈ l, 0 < x) : ∀ y ∈ (l.scanl (· + ·) a), a ≤ y := by
+  induction l generalizing a with
+  | nil => intro y hy; simp at hy; omega
+  | cons x xs ih =>
+    intro y hy
+    rw [List.scanl_cons] at hy
+    rcases List.mem_cons.mp hy with h1 | h1
+    · omega
+    · have hx : 0 < x := h x (by simp)
+      have := ih (a + x) (fun z hz => h z (by simp [hz])) y h1
+      omega
+
+/-- with positive layer thicknesses the interface depths increase strictly from the surface down -/
+theorem z_increasing (s : SP) (hpos : ∀ l ∈ s.layers, 0 < l.thickness) : s.z.Pairwise (· < ·) := by
+  simp only [SP.z]
+  have hp : ∀ x ∈ s.layers.map (·.thickness), 0 < x := by
+    intro x hx
+    obtain ⟨l, hl, rfl⟩ := List.mem_map.mp hx
+    exact hpos l hl
+  generalize s.layers.map (·.thickness) = ts at hp
+  generalize (0 : Int) = a
+  induction ts generalizing a with
+  | nil => simp
+  | cons x xs ih =>
+    rw [List.scanl_cons, List.pairwise_cons]
+    refine ⟨?_, ih (fun z hz => hp z (by simp [hz])) (a + x)⟩
+    intro y hy
+    have hx : 0 < x := hp x (by simp)
+    have := scanl_lower xs (a + x) (fun z hz => hp z (by simp [hz])) y hy
+    omega
+
+
 end Smrt.Props.C16
